@@ -63,7 +63,7 @@ def run(ctx):
         for _ in range(60000 if ctx.thorough else 8000):
             sc = random_score(ctx.rng, 12 if ctx.rng.random() < .5 else 5, ctx.rng.choice([20, 60, 200]))
             cases.append((len(cases), sc, ctx.rng.choice(steplists)))
-    if ctx.thorough and not ctx.replay:      # slices of the repository's fixtures, as loaded (unquantised)
+    if ctx.fixtures and not ctx.replay:      # slices of the repository's fixtures, as loaded (unquantised)
         from harness import fixtures
         for sc in fixtures.slices("raw"):
             for st in ([get_default_step_sizes(), [12], [4, 6], [3]]):
